@@ -1,5 +1,6 @@
 import Andes.Model.Hex
 import Andes.Model.TdsDriver
+import Andes.Model.AddressDriver
 import Andes.Model.ConfigDriver
 import Andes.Model.RegistryDriver
 import Andes.Model.ExprDriver
@@ -24,6 +25,10 @@ def handle (line : String) : String :=
   | "reg" :: args => Andes.Registry.handleReg args
   | "uniq" :: args => Andes.Registry.handleUniq args
   | "cfg" :: args => Andes.Config.handle args
+  | "addr" :: args => Andes.Address.handleAddr args
+  | "req" :: args => Andes.Address.handleReq args
+  | "gval" :: args => Andes.Address.handleGval args
+  | "dsel" :: args => Andes.Address.handleDsel args
   | _ => "bad-op"
 
 partial def loop (h : IO.FS.Stream) : IO Unit := do
